@@ -65,6 +65,14 @@ pub struct Sel {
     pub occ: bool,
     /// many same pieces reaching one square
     pub sanmany: bool,
+    /// two pawns capturing onto one promotion square
+    pub promo2: bool,
+    /// doubled pawns with two captures onto one file
+    pub pawncap2: bool,
+    /// three same pieces, one pinned
+    pub sanpin: bool,
+    /// all 65,536 values of each counter on a few positions
+    pub clocks: bool,
     pub counters: bool,
     pub material: Option<Vec<u32>>,
     /// deep DFS without dedup from the first `n` seeds to the given depth
@@ -83,6 +91,9 @@ impl Sel {
                 reach: Some(4),
                 m4: Some(uni::M4_SHARDS),
                 pin2: Some(4),
+                promo2: true,
+                pawncap2: true,
+                occ: true,
                 ..Default::default()
             }
         } else {
@@ -95,6 +106,7 @@ impl Sel {
                 reach: Some(3),
                 pin2: Some(3),
                 occ: true,
+                promo2: true,
                 ..Default::default()
             }
         }
@@ -177,6 +189,26 @@ pub fn run_universes(run: &mut Run, sel: &Sel, disagree_idx: usize, check: PosCh
     if sel.occ {
         run.par_shards("OCC (every blocker subset on the rook / bishop lines of every square, as positions)", uni::OCC_SHARDS, |ctx, sh| {
             uni::occ(sh, &mut |p| visit(ctx, p, disagree_idx, check));
+        });
+    }
+    if sel.promo2 {
+        run.par_shards("PROMO2 (two pawns capturing onto one promotion square, +- enemy slider)", uni::PROMO2_SHARDS, |ctx, sh| {
+            uni::promo2(sh, &mut |p| visit(ctx, p, disagree_idx, check));
+        });
+    }
+    if sel.pawncap2 {
+        run.par_shards("PAWNCAP2 (doubled pawns, two captures onto one file, +- enemy slider)", uni::PAWNCAP2_SHARDS, |ctx, sh| {
+            uni::pawncap2(sh, &mut |p| visit(ctx, p, disagree_idx, check));
+        });
+    }
+    if sel.sanpin {
+        run.par_shards("SANPIN (three own pieces of one kind, one pinned)", uni::SANPIN_SHARDS, |ctx, sh| {
+            uni::sanpin(sh, &mut |p| visit(ctx, p, disagree_idx, check));
+        });
+    }
+    if sel.clocks {
+        run.par_shards("CLOCKS (6 positions x all 65,536 values of each counter)", uni::CLOCKS_SHARDS, |ctx, sh| {
+            uni::clocks(sh, &mut |p| visit(ctx, p, disagree_idx, check));
         });
     }
     if sel.sanmany {
